@@ -197,6 +197,82 @@ func c04(c *core.Ctx) {
 				})
 			}
 		}
+		// the unary HTTP call waits for the reply body in an interruptible way too: the body is read on a goroutine
+		// of its own (the caller selects on ctx.Done() next to it, checked above); a read on the caller's goroutine
+		// returns only when the transport's body does — a transport whose body does not watch the request context
+		// (anything but net/http's own) would hold the caller beyond its deadline
+		for _, ct := range channelTypes(p, "httpgrpc") {
+			inv := declaredMethod(p, ct, "Invoke")
+			if inv == nil {
+				continue
+			}
+			var readsBody func(f *ssa.Function, par *ssa.Parameter, depth int) bool
+			isBodyVal := func(v ssa.Value, f *ssa.Function, par *ssa.Parameter) bool {
+				return core.OriginIs(v, func(o ssa.Value) bool {
+					o = core.Strip(o)
+					if par != nil && o == ssa.Value(par) {
+						return true
+					}
+					base, fld, isF := core.FieldOf(o)
+					if isF && fld == "Body" && core.TypeStr(core.Deref(base.Type())) == "net/http.Response" {
+						return par == nil || core.OriginIs(base, func(b ssa.Value) bool { return core.Strip(b) == ssa.Value(par) })
+					}
+					if core.TypeStr(o.Type()) == "*net/http.Response" {
+						return par == nil || o == ssa.Value(par)
+					}
+					return false
+				})
+			}
+			readsAt := func(f *ssa.Function, par *ssa.Parameter, depth int, report func(in ssa.Instruction)) {
+				core.Instrs(f, func(in ssa.Instruction) {
+					call, ok := in.(*ssa.Call)
+					if !ok {
+						return
+					}
+					ci := core.InfoOf(&call.Call)
+					args := core.Args(&call.Call)
+					touches := false
+					for _, a := range args {
+						if isBodyVal(a, f, par) {
+							touches = true
+						}
+					}
+					if call.Call.IsInvoke() && isBodyVal(call.Call.Value, f, par) {
+						touches = ci.Name == "Read"
+					}
+					if !touches {
+						return
+					}
+					switch {
+					case ci.Is("io.ReadAll") || ci.Is("io/ioutil.ReadAll") || ci.Is("io.ReadFull") || ci.Is("io.ReadAtLeast") || ci.Is("io.Copy") || ci.Is("io.CopyN") || (ci.Iface && ci.Name == "Read"):
+						report(in)
+					case ci.Static != nil && ci.Static.Blocks != nil && strings.HasPrefix(ci.Pkg, core.ModulePath) && depth < 2:
+						for i, a := range call.Call.Args {
+							if i < len(ci.Static.Params) && isBodyVal(a, f, par) && readsBody(ci.Static, ci.Static.Params[i], depth+1) {
+								report(in)
+							}
+						}
+					}
+				})
+			}
+			readsBody = func(f *ssa.Function, par *ssa.Parameter, depth int) bool {
+				found := false
+				readsAt(f, par, depth, func(ssa.Instruction) { found = true })
+				return found
+			}
+			bad := token.NoPos
+			readsAt(inv, nil, 0, func(in ssa.Instruction) {
+				if _, isDefer := in.(*ssa.Defer); !isDefer {
+					bad = in.Pos()
+				}
+			})
+			key := core.FuncName(inv) + ":reply-body-read-off-the-callers-goroutine"
+			if bad != token.NoPos {
+				c.Fail(key, bad, "the unary call reads the reply body on the caller's own goroutine: the call returns only when the transport's body read does, not when the context ends")
+			} else {
+				c.Ok(key, inv.Pos(), "the reply body is read by a goroutine of its own; the caller waits in a select with ctx.Done()")
+			}
+		}
 		c.EndRule()
 	}
 
